@@ -12,6 +12,7 @@ import (
 	"fmt"
 	"os"
 	"sort"
+	"time"
 )
 
 type suite struct {
@@ -54,7 +55,7 @@ func main() {
 		os.Exit(2)
 	}
 	if *replay != "" {
-		fmt.Println(s.run(*replay))
+		fmt.Println(runWatched(s, *replay))
 		return
 	}
 	cf := mustCreate(*casesPath)
@@ -72,7 +73,7 @@ func main() {
 		if syncOut { // the case is on disk before it runs: a run killed by the race detector names its case
 			cw.Flush()
 		}
-		fmt.Fprintf(iw, "%d\t%s\n", id, s.run(payload))
+		fmt.Fprintf(iw, "%d\t%s\n", id, runWatched(s, payload))
 		if syncOut {
 			iw.Flush()
 		}
@@ -96,6 +97,31 @@ func main() {
 		sf := mustCreate(*statsPath)
 		defer sf.Close()
 		g.writeStats(sf)
+	}
+}
+
+// runWatched runs one case under a watchdog: code under test that never returns is reported as
+// "hang" (the goroutine is abandoned; after a few of them the remaining cases are not started).
+var hangs int
+
+func runWatched(s *suite, payload string) string {
+	if hangs >= 3 {
+		return "not-run (earlier cases hang)"
+	}
+	limit := 60 * time.Second
+	if v := os.Getenv("VERIF_CASE_TIMEOUT"); v != "" {
+		if d, err := time.ParseDuration(v); err == nil {
+			limit = d
+		}
+	}
+	ch := make(chan string, 1)
+	go func() { ch <- s.run(payload) }()
+	select {
+	case r := <-ch:
+		return r
+	case <-time.After(limit):
+		hangs++
+		return "hang"
 	}
 }
 
